@@ -567,16 +567,21 @@ stream_blocks(decoder_t *d, int16 *aud, size_t len)
     return 0;
 }
 
+/* The probe comes in two orders, because whatever runs first meets the state the history left and overwrites it for
+ * what follows.  Each order runs on its own copy of the process (fork) and is compared with the same order on a fresh
+ * decoder.
+ *   probe():       whole-utterance (batch) decodes first, WITHOUT any reset; then streaming after a full reset
+ *   probe_short(): the normalisation state reset through a SHORT list first, then two streamed utterances in a row */
 static int
 probe(decoder_t *d, char *dstream, char *dbatch, size_t n, int setgram)
 {
+    static char qa[DIGN];
     /* the probe grammar is loaded only when the history left another one: loading a grammar creates a new search
      * object and would hide whatever the old one carried over from its last utterance */
     if (setgram && decoder_set_jsgf_string(d, G1) < 0)
         return -1;
     /* FIRST a whole-utterance decode whose LENGTH equals that of the history's main utterance (procA) but whose content
      * differs: anything cached per frame count (the second-pass aligner, say) shows here, before another query replaces it */
-    static char qa[DIGN];
     if (decoder_start_utt(d) < 0 || decoder_process_int16(d, AUD_QA, N_A, 0, 1) < 0 || decoder_end_utt(d) < 0)
         return -9;
     digest(d, qa, sizeof qa);
@@ -611,35 +616,72 @@ probe(decoder_t *d, char *dstream, char *dbatch, size_t n, int setgram)
     if (decoder_end_utt(d) < 0)
         return -5;
     digest(d, dstream, n);
-    /* the state reset through a SHORT list (unlisted coefficients count as zero), then two streamed utterances in a
-     * row without another reset, and the state as text after them */
-    {
-        size_t l = strlen(dstream);
-        const char *rep;
-        if (decoder_set_cmn(d, "40,3,-1") < 0)
-            return -11;
-        if (decoder_start_utt(d) < 0 || stream_blocks(d, AUD_QA, N_A) < 0 || decoder_end_utt(d) < 0)
-            return -12;
-        if (l + 8 < n) {
-            l += snprintf(dstream + l, n - l, " || SA: ");
-            digest(d, dstream + l, n - l);
-            l = strlen(dstream);
-        }
-        if (decoder_start_utt(d) < 0 || stream_blocks(d, AUD_QB, N_B) < 0 || decoder_end_utt(d) < 0)
-            return -13;
-        if (l + 8 < n) {
-            l += snprintf(dstream + l, n - l, " || SB: ");
-            digest(d, dstream + l, n - l);
-            l = strlen(dstream);
-        }
-        rep = decoder_get_cmn(d, 0);
-        if (l + 8 < n)
-            snprintf(dstream + l, n - l, " || cmn: %s", rep ? rep : "NULL");
-    }
     return 0;
 }
 
-static char REF_STREAM[DIGN], REF_BATCH[DIGN];
+static int
+probe_short(decoder_t *d, char *out, size_t n, int setgram)
+{
+    size_t l = 0;
+    const char *rep;
+    if (setgram && decoder_set_jsgf_string(d, G1) < 0)
+        return -1;
+    /* unlisted coefficients count as zero; what the history accumulated must be gone all the same */
+    if (decoder_set_cmn(d, "40,3,-1") < 0)
+        return -11;
+    if (decoder_start_utt(d) < 0 || stream_blocks(d, AUD_QA, N_A) < 0 || decoder_end_utt(d) < 0)
+        return -12;
+    l += snprintf(out + l, n - l, "SA: ");
+    digest(d, out + l, n - l);
+    l = strlen(out);
+    if (decoder_start_utt(d) < 0 || stream_blocks(d, AUD_QB, N_B) < 0 || decoder_end_utt(d) < 0)
+        return -13;
+    if (l + 8 < n) {
+        l += snprintf(out + l, n - l, " || SB: ");
+        digest(d, out + l, n - l);
+        l = strlen(out);
+    }
+    rep = decoder_get_cmn(d, 0);
+    if (l + 8 < n)
+        snprintf(out + l, n - l, " || cmn: %s", rep ? rep : "NULL");
+    return 0;
+}
+
+/* probe_short on a copy of this process; the digest comes back through shared memory.  Returns 0, or -1 with *why set */
+static char *SHARED_DIG; /* DIGN bytes, MAP_SHARED */
+static int
+forked_probe_short(decoder_t *d, int setgram, char *out, size_t n, const char **why)
+{
+    pid_t pid;
+    int st;
+    if (!SHARED_DIG)
+        SHARED_DIG = mmap(NULL, DIGN, PROT_READ | PROT_WRITE, MAP_SHARED | MAP_ANONYMOUS, -1, 0);
+    SHARED_DIG[0] = 0;
+    fflush(mc_fp);
+    fflush(stderr);
+    pid = fork();
+    if (pid == 0) {
+        static char buf[DIGN];
+        int rc = probe_short(d, buf, sizeof buf, setgram);
+        if (rc < 0)
+            snprintf(SHARED_DIG, DIGN, "(probe failed at step %d)", -rc);
+        else
+            snprintf(SHARED_DIG, DIGN, "%s", buf);
+        _exit(0);
+    }
+    if (pid < 0 || waitpid(pid, &st, 0) < 0) {
+        *why = "fork failed";
+        return -1;
+    }
+    if (!WIFEXITED(st) || WEXITSTATUS(st) != 0) {
+        *why = "the process died during the probe";
+        return -1;
+    }
+    snprintf(out, n, "%s", SHARED_DIG);
+    return 0;
+}
+
+static char REF_STREAM[DIGN], REF_BATCH[DIGN], REF_SHORT[DIGN];
 /* C16: a word added at run time must behave exactly like the same word read from the dictionary file */
 #define NADDABLE 4
 static const char *const ADDABLE[NADDABLE][3] = { { "zed", "Z EH D", "zed" }, { "zed2", "Z EH D Z", "zed2" }, { "go(2)", "G AH", "go" },
@@ -817,6 +859,24 @@ run_hist(const hist_t *h)
         if (P_C08) {
             /* with dictionary additions the grammar is always loaded again, on both sides: a loaded grammar keeps the alternates it
              * was built with, so the order of additions and loads would otherwise have to be replayed on the reference */
+            if (m.nadded == 0) {
+                /* the second probe order, on a copy of the process, before the first one touches anything */
+                static char dshort[DIGN];
+                const char *why = NULL;
+                if (forked_probe_short(D, !m.g1, dshort, sizeof dshort, &why) < 0) {
+                    mc_viol("C08/decoder-unusable-after-history", cd, "probe after a short reset: %s", why);
+                    goto out;
+                }
+                if (strcmp(dshort, REF_SHORT) != 0) {
+                    size_t z = 0;
+                    while (dshort[z] && dshort[z] == REF_SHORT[z])
+                        z++;
+                    z = z > 100 ? z - 100 : 0;
+                    mc_viol("C08/streaming-result-after-a-reset-depends-on-history", cd,
+                            "normalisation reset with a short list, then two streamed utterances: ...%.400s | fresh decoder: ...%.400s", dshort + z, REF_SHORT + z);
+                    goto out;
+                }
+            }
             rc = probe(D, ds, db, sizeof ds, m.nadded > 0 || !m.g1);
             if (rc < 0) {
                 mc_viol("C08/decoder-unusable-after-history", cd, "the probe utterance failed at step %d after this history", -rc);
@@ -956,14 +1016,20 @@ main(int argc, char **argv)
         for (i = 0; i < SET_N; i++)
             SETMAP[i] = ops[i];
     }
-    else if (strcmp(set, "boot") == 0) {
+    else if (strcmp(set, "lat") == 0) {
+        /* an utterance and everything that is built from its result */
+        static const int ops[] = { OP_START, OP_PROC_A, OP_END, OP_LATTICE, OP_NBEST3, OP_HYP, OP_ALIGN, OP_FREE };
+        SET_N = (int)(sizeof ops / sizeof *ops);
+        for (i = 0; i < SET_N; i++)
+            SETMAP[i] = ops[i];
+    } else if (strcmp(set, "boot") == 0) {
         /* what a decoder goes through on its way to its first utterance */
         static const int ops[] = { OP_START, OP_PROC_A, OP_END, OP_HYP, OP_SET_G1, OP_ALIGN_T1, OP_LATTICE, OP_ALIGN, OP_REINIT, OP_FREE };
         SET_N = (int)(sizeof ops / sizeof *ops);
         for (i = 0; i < SET_N; i++)
             SETMAP[i] = ops[i];
     }
-    if (strcmp(set, "dict") != 0 && strcmp(set, "boot") != 0)
+    if (strcmp(set, "dict") != 0 && strcmp(set, "boot") != 0 && strcmp(set, "lat") != 0)
         for (i = 0; i < SET_N; i++)
             SETMAP[i] = i;
     {
@@ -991,6 +1057,11 @@ main(int argc, char **argv)
         decoder_t *f = make_decoder();
         int rc = probe(f, REF_STREAM, REF_BATCH, sizeof REF_STREAM, NOGRAM);
         decoder_free(f);
+        if (rc >= 0) {
+            f = make_decoder();
+            rc = probe_short(f, REF_SHORT, sizeof REF_SHORT, NOGRAM);
+            decoder_free(f);
+        }
         if (rc < 0) {
             fprintf(stderr, "probe failed on a fresh decoder (%d)\n", rc);
             return 2;
